@@ -27,6 +27,7 @@ added construct has a behaviour that a necessary condition of the property exclu
  W9  `return` / `break` / `continue` inside a `finally` clause: the exception in flight is discarded.
  W10 an assert statement whose test has a side effect (disappears under python -O).
  W11 a deadline or duration computed from the wall clock (time.time()).
+ W12 an identity test (is / is not) against a value: a number, a string, a module constant that is not a sentinel object.
  W7  a lambda / nested function created in a loop that reads the loop variable and is not called in the same iteration
      (late binding: when it runs, every such closure acts on the last item).
 
@@ -47,7 +48,7 @@ EXPLANATION = (
     "(__len__/__bool__ on truth-tested configuration objects, __exit__ returning a true value, __str__/__repr__ returning a "
     "non-string, read hooks that write); W4 no decorator with shared mutable state wraps a function the rules anchor on; W5 "
     "an override of the serve loop's error hook cannot raise; W6 no new container that outlives a call is written from the "
-    "slice; W7 no closure created in a loop keeps reading the loop variable after its iteration (late binding); W8 no override provided by a package base class is hidden by a standard-library base listed before it; W9 no finally clause leaves with return / break / continue (which discards the exception in flight); W10 assert tests are free of side effects (the statement vanishes under python -O); W11 no deadline or duration is computed from the wall clock.")
+    "slice; W7 no closure created in a loop keeps reading the loop variable after its iteration (late binding); W8 no override provided by a package base class is hidden by a standard-library base listed before it; W9 no finally clause leaves with return / break / continue (which discards the exception in flight); W10 assert tests are free of side effects (the statement vanishes under python -O); W11 no deadline or duration is computed from the wall clock; W12 identity tests compare with None / True / False, a class, a sentinel created by object(), or another object reference - never with a value (number, string, enum member, module constant), for which equal objects need not be identical.")
 
 RULE_METHODS = {"W1": "decorator resolution + call-site argument classification", "W2": "reaching definitions + CFG reachability between consumers",
                 "W3": "class-body scan against vlib/known_functions.json + return / store classification",
@@ -55,7 +56,7 @@ RULE_METHODS = {"W1": "decorator resolution + call-site argument classification"
                 "W6": "store scan of module / class / decorator level containers",
                 "W7": "free-variable analysis of closures created in loops + use classification",
                 "W9": "syntax scan of finally clauses", "W10": "call classification inside assert tests (pure builtins / queries vs mutating callees)",
-                "W11": "syntax scan for arithmetic on time.time()",
+                "W11": "syntax scan for arithmetic on time.time()", "W12": "operand classification of is / is not comparisons (module-level bindings resolved)",
                 "W8": "left-to-right linearisation of the bases against the names the standard-library bases define"}
 
 SRV = "SimpleJSONRPCServer"
@@ -301,7 +302,7 @@ def check(ck):
     sl = slice_of(prog, prop)
     ck.stat("closed_world_slice_functions", len(sl)) if hasattr(ck, "stat") else None
     errors = []
-    for part in (_w1_memo, _w2_iterators, _w6_containers, _w7_closures, _w9_finally_exits, _w10_assert_effects, _w11_wall_clock):
+    for part in (_w1_memo, _w2_iterators, _w6_containers, _w7_closures, _w9_finally_exits, _w10_assert_effects, _w11_wall_clock, _w12_identity_of_values):
         try:
             part(ck, sl)
         except AnalysisError as ex:
@@ -672,3 +673,39 @@ def _w11_wall_clock(ck, sl):
                            "during the wait, a timeout expires at once or never - use time.monotonic() or pass the timeout to the primitive "
                            "unchanged" % dump(x)[:50], fi.loc(x))
     ck.ok(rule, "durations computed from the wall clock in the slice", "%d found" % n, "")
+
+
+def _w12_identity_of_values(ck, sl):
+    """`x is V` where V is a value rather than a unique object: an int / str literal, or a module-level name bound to something that
+    is neither None, a class, nor a sentinel created by object().  Two equal values (socket.AF_UNIX and the int 1, "a" and a string
+    built at run time) need not be the same object, so the test fails for inputs that `==` accepts."""
+    prog = ck.prog
+    rule = ck.prop + ".W12"
+    n = 0
+    for fi in sl.values():
+        mod = prog.modules.get(fi.module)
+        for x in ast.walk(fi.node):
+            if not (isinstance(x, ast.Compare) and any(isinstance(o, (ast.Is, ast.IsNot)) for o in x.ops)):
+                continue
+            operands = [x.left] + list(x.comparators)
+            for i, o in enumerate(x.ops):
+                if not isinstance(o, (ast.Is, ast.IsNot)):
+                    continue
+                for v in (operands[i], operands[i + 1]):
+                    n += 1
+                    why = None
+                    if isinstance(v, ast.Constant) and v.value is not None and v.value is not True and v.value is not False and v.value is not Ellipsis:
+                        why = "the literal %r" % (v.value,)
+                    elif isinstance(v, ast.Name) and mod is not None and v.id in getattr(mod, "assigns", {}) and v.id not in fi.params:
+                        val = mod.assigns.get(v.id)
+                        sentinel = isinstance(val, ast.Call) and dump(val.func) in ("object", "type") or \
+                            (isinstance(val, ast.Call) and isinstance(val.func, ast.Name) and val.func.id[:1].isupper()) or \
+                            (isinstance(val, ast.Constant) and val.value is None)
+                        is_class = prog.resolve(fi.module, v) in prog.classes or str(prog.resolve(fi.module, v) or "").startswith("class:")
+                        if not sentinel and not is_class and val is not None:
+                            why = "the module constant %s = %s" % (v.id, dump(val)[:40])
+                    if why:
+                        ck.bad(rule, "%s: `%s`" % (q.fn(fi), dump(x)[:50]),
+                               "an identity test against a value (%s): an equal value that is another object (an int equal to an enum member, a "
+                               "string built at run time) fails the test that `==` passes, and the branch meant for it is skipped" % why, fi.loc(x))
+    ck.ok(rule, "identity tests in the slice", "%d operand(s) examined" % n, "")
